@@ -18,6 +18,7 @@ at the top-level directory.
  */
 #include <math.h>
 #include <stdio.h>
+#include <ctype.h>
 #include <stdlib.h>
 #include "slu_mt_sdefs.h"
 
@@ -113,6 +114,96 @@ int_t sReadValues(FILE *fp, int_t n, float *destination, int_t perline, int_t pe
 }
 
 
+
+
+/*
+ * On input, nonz/nzval/rowind/colptr hold the stored triangle of a matrix
+ * whose type code says symmetric ('S'), skew-symmetric ('Z') or Hermitian
+ * ('H').  On exit they hold the full matrix: every stored off-diagonal
+ * entry (i,j) is joined by its mirror image (j,i), negated for 'Z' and
+ * conjugated for 'H'.
+ */
+static void
+FormFullA(int_t n, int_t *nonz, float **nzval, int_t **rowind,
+	  int_t **colptr, int kind)
+{
+    int_t i, j, k, col, new_nnz;
+    int_t *t_rowind, *t_colptr, *al_rowind, *al_colptr, *a_rowind, *a_colptr;
+    int_t *marker;
+    float *t_val, *al_val, *a_val;
+
+    al_rowind = *rowind;
+    al_colptr = *colptr;
+    al_val = *nzval;
+
+    if ( !(marker = (int_t *) SUPERLU_MALLOC( (n+1) * sizeof(int_t)) ) )
+	SUPERLU_ABORT("SUPERLU_MALLOC fails for marker[]");
+    if ( !(t_colptr = (int_t *) SUPERLU_MALLOC( (n+1) * sizeof(int_t)) ) )
+	SUPERLU_ABORT("SUPERLU_MALLOC fails for t_colptr[]");
+    if ( !(t_rowind = (int_t *) SUPERLU_MALLOC( (*nonz+1) * sizeof(int_t)) ) )
+	SUPERLU_ABORT("SUPERLU_MALLOC fails for t_rowind[]");
+    if ( !(t_val = (float *) SUPERLU_MALLOC( (*nonz+1) * sizeof(float)) ) )
+	SUPERLU_ABORT("SUPERLU_MALLOC fails for t_val[]");
+
+    /* Count the mirror images in each column; the diagonal has none. */
+    for (i = 0; i < n; ++i) marker[i] = 0;
+    for (j = 0; j < n; ++j)
+	for (i = al_colptr[j]; i < al_colptr[j+1]; ++i)
+	    if ( al_rowind[i] != j ) ++marker[al_rowind[i]];
+    t_colptr[0] = 0;
+    for (i = 0; i < n; ++i) {
+	t_colptr[i+1] = t_colptr[i] + marker[i];
+	marker[i] = t_colptr[i];
+    }
+    new_nnz = *nonz + t_colptr[n];
+
+    /* T := the mirror images, column by column */
+    for (j = 0; j < n; ++j)
+	for (i = al_colptr[j]; i < al_colptr[j+1]; ++i) {
+	    col = al_rowind[i];
+	    if ( col == j ) continue;
+	    t_rowind[marker[col]] = j;
+	    t_val[marker[col]] = al_val[i];
+	    if ( kind == 'Z' ) t_val[marker[col]] = -t_val[marker[col]];
+	    ++marker[col];
+	}
+
+    if ( !(a_colptr = (int_t *) SUPERLU_MALLOC( (n+1) * sizeof(int_t)) ) )
+	SUPERLU_ABORT("SUPERLU_MALLOC fails for a_colptr[]");
+    if ( !(a_rowind = (int_t *) SUPERLU_MALLOC( (new_nnz+1) * sizeof(int_t)) ) )
+	SUPERLU_ABORT("SUPERLU_MALLOC fails for a_rowind[]");
+    if ( !(a_val = (float *) SUPERLU_MALLOC( (new_nnz+1) * sizeof(float)) ) )
+	SUPERLU_ABORT("SUPERLU_MALLOC fails for a_val[]");
+
+    a_colptr[0] = 0;
+    k = 0;
+    for (j = 0; j < n; ++j) {
+	for (i = t_colptr[j]; i < t_colptr[j+1]; ++i) {
+	    a_rowind[k] = t_rowind[i];
+	    a_val[k] = t_val[i];
+	    ++k;
+	}
+	for (i = al_colptr[j]; i < al_colptr[j+1]; ++i) {
+	    a_rowind[k] = al_rowind[i];
+	    a_val[k] = al_val[i];
+	    ++k;
+	}
+	a_colptr[j+1] = k;
+    }
+
+    SUPERLU_FREE(al_val);
+    SUPERLU_FREE(al_rowind);
+    SUPERLU_FREE(al_colptr);
+    SUPERLU_FREE(marker);
+    SUPERLU_FREE(t_val);
+    SUPERLU_FREE(t_rowind);
+    SUPERLU_FREE(t_colptr);
+
+    *nzval = a_val;
+    *rowind = a_rowind;
+    *colptr = a_colptr;
+    *nonz = new_nnz;
+}
 
 void
 sreadhb(int_t *nrow, int_t *ncol, int_t *nonz,
@@ -256,6 +347,12 @@ sreadhb(int_t *nrow, int_t *ncol, int_t *nonz,
         sReadValues(fp, *nonz, *nzval, valnum, valsize);
     }
     
+    /* A symmetric, skew-symmetric or Hermitian file holds one triangle. */
+    if ( *nrow == *ncol && numer_lines &&
+	 (type[1] == 'S' || type[1] == 's' || type[1] == 'Z' || type[1] == 'z'
+	  || type[1] == 'H' || type[1] == 'h') )
+	FormFullA(*ncol, nonz, nzval, rowind, colptr, toupper(type[1]));
+
     fclose(fp);
 
 }
